@@ -1,6 +1,7 @@
 """C07 -- constraint verdicts follow the documented selector/quantifier semantics."""
 import logging
 import random
+import re as pyre
 
 import common
 import export
@@ -119,7 +120,7 @@ def gen_selector(rng, nts, base=None, depth=None):
             if rng.random() < 0.7:
                 break
         elif not indexed:
-            lo, hi = rng.choice([("", "2"), ("1", ""), ("0", "1"), ("-2", ""), ("1", "3")])
+            lo, hi = rng.choice([("", "2"), ("1", ""), ("0", "1"), ("-2", ""), ("1", "3"), ("", "0"), ("1", "0"), ("", "-1")])
             s += f"[{lo}:{hi}]"
             break
     return s
@@ -457,8 +458,175 @@ def correspondence(res):
                 what = {0: "implementation verdict differs from the documented meaning", 2: KNOWN_DESC, 3: KNOWN_LAZY}[v]
                 if len(res.violations) < 3:
                     res.violation(f"{label}: {what}", infos[i])
+    text_clause(res)
     if broken:
         raise broken
+
+
+# ------------------------------------------------------------------ the constraint TEXT as a program (reference reading independent of fandango's front end)
+
+SEL_RE = pyre.compile(r"<\w+>(?:\.\.?<\w+>|\[-?\d*(?::-?\d*)?\])*")
+STEP_RE = pyre.compile(r"(\.\.?)(<\w+>)|\[(-?\d*)(?:(:)(-?\d*))?\]")
+
+
+def ref_selector(text):
+    """own reading of a selector text: <A> (.<B> | ..<B> | [i] | [i:j])*  ->  search IR"""
+    m = pyre.match(r"<\w+>", text)
+    ir, rest = ("rule", m.group(0)), text[m.end():]
+    while rest:
+        m = STEP_RE.match(rest)
+        if m is None:
+            raise L.Unsupported("selector text " + text)
+        if m.group(1):
+            ir = ("attr" if m.group(1) == "." else "desc", ir, ("rule", m.group(2)))
+        elif m.group(4):
+            ir = ("item", ir, ("slice", int(m.group(3)) if m.group(3) else None, int(m.group(5)) if m.group(5) else None))
+        else:
+            ir = ("item", ir, ("at", int(m.group(3))))
+        rest = rest[m.end():]
+    return ir
+
+
+class TextAtom:
+    """the constraint text itself, selectors replaced by names: evaluated by Python, nothing else"""
+
+    def __init__(self, text):
+        self.searches = []
+
+        def sub(m):
+            name = f"sel_{len(self.searches)}"
+            self.searches.append((name, ref_selector(m.group(0))))
+            return name
+        self.source = SEL_RE.sub(sub, text)
+        self.expression = compile(self.source, "<constraint text>", "eval")
+        self.local_variables, self.global_variables = {}, {}
+
+
+def gen_text_formula(rng, nts, k):
+    """flat formulas (one Python expression, no and/or at the top: fandango splits those into separately quantified parts)"""
+    bs = ["", "0", "1", "2", "-1"]
+    def sel():
+        s = gen_selector(rng, nts)
+        if "[" not in s and rng.random() < 0.5:
+            lo, hi = rng.choice(bs), rng.choice(bs)
+            s += f"[{lo}:{hi}]" if rng.random() < 0.7 else f"[{rng.choice(['0', '1', '-1'])}]"
+        return s
+    lit = rng.choice(['"a"', '"0"', '"1"', '"7"', '"x"', '"p"', '""'])
+    op = rng.choice(["==", "!=", "<", ">=", "<=", ">"])
+    n = rng.randint(0, 4)
+    forms = [
+        lambda: f"len(str({sel()})) {op} {n}",
+        lambda: f"str({sel()}) {rng.choice(['==', '!='])} {lit}",
+        lambda: f"{rng.randint(0, 2)} {rng.choice(['<', '<='])} len(str({sel()})) {rng.choice(['<', '<='])} {rng.randint(1, 4)}",
+        lambda: f"not str({sel()}) == {lit}",
+        lambda: f"not len(str({sel()})) {op} {n}",
+        lambda: f"not (str({sel()}) == {lit})",
+        lambda: f"{lit} != str({sel()}) != \"b\"",
+        lambda: f"int({sel()}) {op} {n}",
+    ]
+    return forms[k % len(forms)]()
+
+
+def text_worker(args):
+    seed, n_texts, trees_per = args
+    import sys
+    sys.stderr = open("/dev/null", "w")
+    from fandango import Fandango
+    quiet()
+    res = MiniRes()
+    rng = random.Random(seed * 13 + 5)
+    terms, infos = [], []
+    for k in range(n_texts):
+        spec, nts = rng.choice(SCHEMAS)
+        text = gen_text_formula(rng, nts, k + seed)
+        full = spec + "where " + text + "\n"
+        try:
+            atom = TextAtom(text)
+            fe = Fandango(full, lazy=False)
+            fl = Fandango(full, lazy=True)
+        except Exception:
+            res.bump("text_rejected_by_front_end")
+            continue
+        ir = ("expr", 0, atom.searches)
+        res.bump("text_constraints")
+        for _ in range(trees_per):
+            random.seed(rng.randrange(1 << 30))
+            try:
+                t = fe.grammar.fuzz("<start>", max_nodes=rng.choice([5, 15, 40]))
+            except Exception:
+                continue
+            if t.size() > 120:
+                continue
+            pt = L.PT(t)
+            table = {}
+            try:
+                L.collect(pt, [atom], ir, {}, [], True, table)
+                L.collect(pt, [atom], ir, {}, [], False, table)
+            except Exception as e:
+                res.bump("text_oracle_failed_" + type(e).__name__)
+                continue
+            if len(table) > 400:
+                continue
+
+            def all_verdicts(cs):
+                vs = [verdict(c, t) for c in cs]
+                return "VRaise" if "VRaise" in vs else ("VTrue" if all(v == "VTrue" for v in vs) else "VFalse")
+            ie, il = all_verdicts(fe.constraints), all_verdicts(fl.constraints)
+            terms.append(f"({export.export_tree(t)}, {L.coq_constr(ir)}, {L.coq_oracle(table)}, {ie}, {il})")
+            infos.append({"spec": spec, "constraint_text": text, "read_by_python_as": atom.source, "selectors": [str(x) for x in atom.searches],
+                          "read_by_fandango_as": [c.format_as_spec() for c in fe.constraints], "tree": str(export.tree_py(t))[:400],
+                          "impl_eager": ie, "impl_lazy": il, "oracle_entries": len(table)})
+            res.count(("text", text, export.tree_py(t)), nontrivial=len(table) >= 1)
+            res.bump("text_impl_" + ie)
+    return (terms, infos), res.hist, res.counts, res.samples
+
+
+KNOWN_TEXT = {
+    "not-binds-tighter-than-comparison": "`not a == b` is read as `(not a) == b` (formula_comparison is tried before the Python expression): Python reads `not (a == b)`",
+    "comparison-chain-read-as-nested": "`a < b < c` is read as `(a < b) < c`: Python reads a chain `a < b and b < c`",
+}
+
+
+def text_signature(text):
+    t = text.strip()
+    if t.startswith("not ") and not t.startswith("not ("):
+        return "not-binds-tighter-than-comparison"
+    if len(pyre.findall(r"(?<![<>=!])(?:<=|>=|==|!=|<|>)(?![=>])", SEL_RE.sub("S", t))) >= 2:
+        return "comparison-chain-read-as-nested"
+    return None
+
+
+def text_clause(res):
+    from props import c02
+    W = 14
+    n = 28 if res.tier == "quick" else 112
+    terms, infos = c02.parallel(res, text_worker, [(res.seed * 1000 + w, n, 3) for w in range(W)])
+    codes = common.run_case_codes("C07", "text", HEADER, terms, "c07_prop", chunk=100, ctype=CT)
+    known, _ = common.load_known("C07")
+    sigs = {k["signature"] for k in known}
+    res.coverage["rule"] += (" Constraint TEXTS as programs: flat formulas (all forms of [i] / [i:j] with open, zero, positive and negative bounds, comparison chains, "
+                             "`not` before a comparison) read by an own selector reader + Python's eval of the text, verdict_doc in Coq vs the verdict of "
+                             "whatever fandango's front end made of the text.")
+    for code, inf in zip(codes, infos):
+        if code == 1:
+            res.bump("text_verdicts_agree")
+            continue
+        if code in (4, None):
+            raise Broken("property evaluation inconclusive (constraint text)", repr(inf))
+        if code == 2 and "desc-includes-base" in sigs:
+            res.known("desc-includes-base: " + KNOWN_DESC)
+            continue
+        if code == 3 and "lazy-selector-raises" in sigs:
+            res.known("lazy-selector-raises: " + KNOWN_LAZY)
+            continue
+        sig = text_signature(inf["constraint_text"])
+        if sig and sig in sigs:
+            res.known(sig + ": " + KNOWN_TEXT[sig])
+            res.bump("known_" + sig)
+            continue
+        if len(res.violations) < 3:
+            res.violation("the verdict for a constraint text differs from the truth of its Python expression over all combinations of matches "
+                          "(selectors read as documented)", inf)
 
 
 def search(res):
